@@ -68,6 +68,19 @@ func Num(t *rapid.T, label string, o NumOpts) string {
 	}
 }
 
+// counters: values for epochs, revisions and pre/post/dev numbers that are written with leading zeros or sit next to
+// the word sizes a parser may narrow to (adjacent pairs, so that a neighbour's +-1 lands on the other side).
+var counters = []string{"00", "010", "08", "007", "2147483647", "2147483648", "4294967295", "4294967296", "4294967297", "281474976710656", "9007199254740992", "9007199254740993",
+	"20240229123456", "9223372036854775807"}
+
+// Counter draws a small number most of the time and one of counters otherwise.
+func Counter(t *rapid.T, label string) string {
+	if Chance(t, label+"C", 1, 7) {
+		return Pick(t, label, counters...)
+	}
+	return Pick(t, label, small...)
+}
+
 // SmallNum draws from the small pool only.
 func SmallNum(t *rapid.T, label string) string { return Pick(t, label, small...) }
 
